@@ -122,7 +122,9 @@ static void setCpuLimit(int sec) {
   setitimer(ITIMER_PROF, &it, NULL);
 }
 
-static bool runOcca(const std::string &src, std::vector<std::string> &lines, int &errors, int &depth) {
+// false: an occa::exception (e.g. integer division by zero in an EVALUATED condition, since fix N01) left the
+// preprocessor; `what` holds its message
+static bool runOcca(const std::string &src, std::vector<std::string> &lines, int &errors, int &depth, std::string &what) {
   tokenizer_t tokenizer;
   preprocessor_t pp;
   occa::lang::stream<token_t*> ts = tokenizer.map(pp);
@@ -135,17 +137,26 @@ static bool runOcca(const std::string &src, std::vector<std::string> &lines, int
   int saved = dup(1), devnull = open("/dev/null", O_WRONLY);
   protoFd = saved; dup2(devnull, 1); close(devnull);
   setCpuLimit(3);
-  while (!ts.isEmpty()) {
-    token_t *t = NULL;
-    ts >> t;
-    if (!t) break;
-    if (t->type() & tokenType::newline) {
-      if (!cur.empty()) lines.push_back(joinToks(cur));
-      cur.clear();
-    } else {
-      cur.push_back(t->str());
+  bool threw = false;
+  try {
+    while (!ts.isEmpty()) {
+      token_t *t = NULL;
+      ts >> t;
+      if (!t) break;
+      if (t->type() & tokenType::newline) {
+        if (!cur.empty()) lines.push_back(joinToks(cur));
+        cur.clear();
+      } else {
+        cur.push_back(t->str());
+      }
+      delete t;
     }
-    delete t;
+  } catch (const std::exception &e) {
+    threw = true;
+    what = e.what();
+  } catch (...) {
+    threw = true;
+    what = "unknown exception";
   }
   setCpuLimit(0);
   std::cout.flush(); fflush(stdout);
@@ -154,7 +165,7 @@ static bool runOcca(const std::string &src, std::vector<std::string> &lines, int
   preprocessor_t &p2 = *((preprocessor_t*) ts.getInput("preprocessor_t"));
   errors = p2.errors + tokenizer.errors;
   depth = (int) p2.statusStack.size() - 1;   // init() pushes one entry
-  return true;
+  return !threw;
 }
 
 static std::string showLines(const std::vector<std::string> &l) {
@@ -204,8 +215,13 @@ int main() {
           cppOk = runCpp(src, cl, diag);
         }
         if (k == "endref") return cppOk ? ("ref=" + showLines(cl)) : std::string("ref=ERROR");
-        std::vector<std::string> ol; int errors = 0, depth = 0;
-        runOcca(src, ol, errors, depth);
+        std::vector<std::string> ol; int errors = 0, depth = 0; std::string what;
+        if (!runOcca(src, ol, errors, depth, what)) {
+          // the model's TRAP outcome: evaluation of a condition failed hard (division by zero, bool & bool)
+          for (char &ch : what) if (ch == '\n' || ch == '\r') ch = ' ';
+          if (cppOk) hp::oracle("OCCA raised an exception on a unit the C preprocessor accepts: " + what.substr(0, 160));
+          return "TRAP";
+        }
         if (cppOk) {
           if (errors) hp::oracle("OCCA reports " + std::to_string(errors) + " error(s) on a unit the C preprocessor accepts");
           if (ol != cl) {
